@@ -364,6 +364,64 @@ def f(x: FLOAT[...], n: INT64):
     return acc
 ''', ["x:F:2 n:I:"])
 
+P("nested_loop_alias_of_outer_body_value", '''
+@script()
+def f(x: FLOAT[...], n: INT64, m: INT64):
+    a = op.Identity(x)
+    for i in range(n):
+        t = a + x
+        for j in range(m):
+            a = t
+    return a
+''', ["x:F:2 n:I: m:I:"])
+
+P("loop_two_state_vars_aliasing_one_value", '''
+@script()
+def f(x: FLOAT[...], n: INT64):
+    a = x
+    b = x * 2.0
+    for i in range(n):
+        a = a + x
+        b = a
+    return a, b
+''', ["x:F:2 n:I:"])
+
+P("while_alias_of_outer_value_in_body", '''
+@script()
+def f(x: FLOAT[...]):
+    t = x * 3.0
+    a = x
+    c = op.ReduceSum(a, keepdims=0) < 4.0
+    while c:
+        a = t
+        c = op.ReduceSum(a, keepdims=0) < 1.0
+    return a + t
+''', ["x:F:2"])
+
+P("attr_required_only_in_loop_and_branch", '''
+@script()
+def f(x: FLOAT[...], n: INT64, rate: float, step: int):
+    a = x
+    for i in range(n):
+        a = a * rate
+        if op.ReduceSum(a, keepdims=0) > 1.0:
+            a = a - op.Cast(step, to=1)
+        else:
+            a = a + 1.0
+    return a
+''', ["x:F:2 n:I:"], [{"rate": 0.5, "step": 2}, {"rate": -1.5, "step": 0}])
+
+P("attr_required_only_in_while_body", '''
+@script()
+def f(x: FLOAT[...], gain: float, limit: float):
+    t = x
+    c = op.ReduceSum(t, keepdims=0) < limit
+    while c:
+        t = t * gain + 1.0
+        c = op.ReduceSum(t, keepdims=0) < limit
+    return t
+''', ["x:F:2"], [{"gain": 2.0, "limit": 6.0}, {"gain": 0.5, "limit": 0.0}])
+
 # ---------------------------------------------------------------- if / else
 P("if_both", '''
 @script()
